@@ -32,3 +32,17 @@
 (assert (forall ((s Str) (f Str) (t Str)) (! (= (trPre s 0 f t) str_empty) :pattern ((trPre s 0 f t)))))
 (assert (forall ((s Str) (k Int) (f Str) (t Str)) (! (=> (and (<= 0 k) (< k (runeCount s)))
    (= (trPre s (+ k 1) f t) (cat (trPre s k f t) (trChar (runeAt s k) f t)))) :pattern ((trPre s (+ k 1) f t)) :pattern ((trPre s k f t) (runeAt s k)))))
+;; normalize-space (4.2): the bytes of s that are not XML white space (#x20 #x9 #xD #xA), where every maximal run of
+;; white space that lies between two such bytes is replaced by ONE space and leading/trailing runs disappear.
+;; nsPre(s, i): what the first i bytes contribute - a byte that is not white space is preceded by a single space
+;; exactly when white space precedes it and something was already written.
+(declare-fun byteStr (Int) Str)
+(assert (forall ((c Int)) (! (= (slen (byteStr c)) 1) :pattern ((byteStr c)))))
+(define-fun xmlSp ((c Int)) Bool (or (= c 32) (= c 9) (= c 13) (= c 10)))
+(declare-fun nsPre (Str Int) Str)
+(assert (forall ((s Str)) (! (= (nsPre s 0) str_empty) :pattern ((nsPre s 0)))))
+(assert (forall ((s Str) (i Int)) (! (=> (and (<= 0 i) (< i (slen s)))
+   (= (nsPre s (+ i 1))
+      (ite (xmlSp (sbyte s i)) (nsPre s i)
+           (cat (cat (nsPre s i) (ite (and (> i 0) (xmlSp (sbyte s (- i 1))) (not (= (nsPre s i) str_empty))) (byteStr 32) str_empty)) (byteStr (sbyte s i))))))
+   :pattern ((nsPre s (+ i 1))) :pattern ((nsPre s i) (sbyte s i)))))
